@@ -834,8 +834,8 @@ def run_history(ctx, builder, hello, modeld, hid, script, fresh_oracle, res, cfg
             # seed the oracle's cache with the runtime archives this build produced (saves one runtime compile); the
             # oracle only has to be free of archives of the MODULE's packages, which are dropped before every oracle build
             shutil.copytree(os.path.join(xdg, "llgo"), os.path.join(oxdg, "llgo"), dirs_exist_ok=True)
-        _, err, rc = run_prog(prog)
-        got = out_lines(err)
+        sout, err, rc = run_prog(prog)
+        got = out_lines(sout + "\n" + err)      # println writes to stderr, the LLGO_TRACE call trace to stdout
         # the oracle: a clean build of the current inputs (no archive of any package of the module in its cache; in
         # `fresh_oracle` mode a completely empty cache directory)
         all_miss = all((after.get(pk, set()) - before.get(pk, set())) for pk in PKGS) and not fresh_oracle
@@ -855,8 +855,8 @@ def run_history(ctx, builder, hello, modeld, hid, script, fresh_oracle, res, cfg
             po, _ = builder.build(mod, oxdg, oprog)
             if po.returncode != 0:
                 raise RuntimeError("oracle build failed in history %s step %d (%s):\n%s" % (hid, si, desc, (po.stdout + po.stderr)[-3000:]))
-            _, oerr, orc = run_prog(oprog)
-            want = out_lines(oerr)
+            osout, oerr, orc = run_prog(oprog)
+            want = out_lines(osout + "\n" + oerr)
             last_oracle, last_inputs = want, inputs_id
             res["oracle_builds"] += 1
         res["steps"] += 1
